@@ -54,7 +54,7 @@ TSamples == /\ Is("Samples") /\ l' = l + 1
             /\ UNCHANGED <<seenT, seenW, seenD, cur>>
 TDrbg == /\ Is("Drbg") /\ l' = l + 1
          /\ LET e == Trace[l] IN
-              /\ e.refeq /\ e.first_is_siphash /\ e.int63ok
+              /\ e.refeq /\ e.first_is_siphash /\ e.int63ok /\ e.retained    \* (retained: blocks handed out earlier did not change)
               /\ (e.seed \in DOMAIN seenD => seenD[e.seed] = e.digest)          \* deterministic
               /\ seenD' = Upd(seenD, e.seed, e.digest)
          /\ UNCHANGED <<seenT, seenW, cur>>
@@ -68,7 +68,10 @@ TRange == /\ Is("Range") /\ l' = l + 1
                                          /\ ((~e.scripted /\ e.k >= 200 * e.a) => (e.lo = 0 /\ e.hi = e.a - 1))
                  [] e.fn = "Float64"  -> ~e.panicked /\ e.lo >= 0 /\ e.hi < Scale        \* logged as floor(x * Scale)
           /\ UNCHANGED <<seenT, seenW, seenD, cur>>
-TNext == TReset \/ TVose \/ TBuild \/ TSamples \/ TDrbg \/ TRange
+\* Sample() overlapping a Reset(): never a panic, always a value of the old or of the new table
+TSampleReset == /\ Is("SampleReset") /\ l' = l + 1 /\ Trace[l].trials > 0 /\ Trace[l].panics = 0 /\ Trace[l].outside = 0
+                /\ UNCHANGED <<seenT, seenW, seenD, cur>>
+TNext == TSampleReset \/ TReset \/ TVose \/ TBuild \/ TSamples \/ TDrbg \/ TRange
 TraceSpec == TInit /\ [][TNext]_tvars
 HW == TLCSet(1, IF l - 1 > TLCGet(1) THEN l - 1 ELSE TLCGet(1))
 TraceAccepted == IF TLCGet(1) = Len(Trace) THEN TRUE ELSE PrintT(<<"REJECTED_AFTER", TLCGet(1)>>) /\ FALSE
